@@ -322,6 +322,9 @@ fn scenario(name: &str) -> Option<Scenario<S>> {
         "S3b" => mk("S3b-handover-pusher-reader-clearer", 63, vec![p2(1, 2), reader, clearer1]),
         "S3c" => mk("S3c-handover-2pushers-reader", 63, vec![p2(1, 2), p1(3), reader_e]),
         "S3d" => mk("S3d-handover62-2pushers-clearer", 62, vec![p2(1, 2), p2(3, 4), clearer1]),
+        // two clearing readers at once (a scrape and the periodic upkeep; two snapshotters)
+        "S5" => mk("S5-pusher-2clearers", 1, vec![p2(1, 2), body(|s: &S| clear(s)), body(|s: &S| clear(s))]),
+        "S5h" => mk("S5h-handover-pusher-2clearers", 63, vec![p2(1, 2), body(|s: &S| clear(s)), body(|s: &S| clear(s))]),
         _ => return None,
     })
 }
@@ -329,7 +332,7 @@ fn scenario(name: &str) -> Option<Scenario<S>> {
 fn parts(ctx: &Ctx) -> Vec<PartSpec> {
     let mut v = Vec::new();
     if ctx.quick() {
-        for s in ["S1", "S2", "S2b", "S3", "S3b", "S3c", "S4", "S4h"] {
+        for s in ["S1", "S2", "S2b", "S3", "S3b", "S3c", "S4", "S4h", "S5", "S5h"] {
             v.push(PartSpec::new(&format!("{}-pb2", s), json!({"scn": s, "pb": 2})).budget(40.0));
         }
         // E2: C11 memory model (incl. the epoch reclamation's own atomics), 2 threads at bound 1, 3 threads at bound 0
@@ -340,7 +343,7 @@ fn parts(ctx: &Ctx) -> Vec<PartSpec> {
         for (s, pb, b) in [("push_clear", 2, 900.0), ("push_snap", 2, 1500.0), ("handover_clear", 2, 1500.0), ("full_push_clear", 2, 1500.0), ("handover_push_push", 2, 1500.0), ("handover_snap", 1, 900.0), ("push_clear_snap", 1, 1500.0), ("push_clear_clear", 1, 1500.0), ("push_push_clear", 1, 1500.0), ("handover_push_push_clear", 1, 1500.0)] {
             v.push(PartSpec::new(&format!("loom-{}-pb{}", s, pb), json!({"loom": s, "pb": pb})).budget(b));
         }
-        for s in ["S1", "S2", "S2b", "S3", "S3b", "S3c", "S3d", "S4", "S4h"] {
+        for s in ["S1", "S2", "S2b", "S3", "S3b", "S3c", "S3d", "S4", "S4h", "S5", "S5h"] {
             v.push(PartSpec::new(&format!("{}-pb3", s), json!({"scn": s, "pb": 3})).budget(900.0));
         }
         for s in ["S1", "S3", "S2"] {
@@ -374,7 +377,7 @@ fn main() {
     driver::main(CheckDef {
         prop: "C05",
         level: "model_checking",
-        rule: "E2: loom 0.7.2 explores every C11 execution (which store each load reads, preemption-bounded) of the repository's own bucket.rs with crossbeam-epoch / crossbeam-utils compiled in their loom mode, every slot access tracked: pusher(2) || clearer, pusher(2) || snapshot reader + is_empty, two pushers || clearer, pusher || clearer || snapshot / second clearer, each also with 63 / 64 pre-filled slots (block hand-over inside the window); oracle: multiset conservation over all clears + final drain, per-block push order, snapshots show no fabricated / duplicated value and every completed push, and loom's own report of slot accesses not ordered by happens-before; E1: every interleaving (at atomic-operation granularity, sequentially consistent) of 3 real threads over the real AtomicBucket with at most pb preemptions; scenarios: 2 pushers x 2 pushes || clearer, pusher || reader(data_with,is_empty,data) || clearer, each also with 63/62 pre-filled slots so the racing pushes straddle the block hand-over, and with a destructor-carrying payload; distinct = distinct (clear deliveries, snapshots, is_empty answers) outcome",
+        rule: "E2: loom 0.7.2 explores every C11 execution (which store each load reads, preemption-bounded) of the repository's own bucket.rs with crossbeam-epoch / crossbeam-utils compiled in their loom mode, every slot access tracked: pusher(2) || clearer, pusher(2) || snapshot reader + is_empty, two pushers || clearer, pusher || clearer || snapshot / second clearer, each also with 63 / 64 pre-filled slots (block hand-over inside the window); oracle: multiset conservation over all clears + final drain, per-block push order, snapshots show no fabricated / duplicated value and every completed push, and loom's own report of slot accesses not ordered by happens-before; E1: every interleaving (at atomic-operation granularity, sequentially consistent) of 3 real threads over the real AtomicBucket with at most pb preemptions; scenarios: 2 pushers x 2 pushes || clearer, pusher || reader(data_with,is_empty,data) || clearer, pusher || two clearers, each also with 63/62 pre-filled slots so the racing pushes straddle the block hand-over, and with a destructor-carrying payload; distinct = distinct (clear deliveries, snapshots, is_empty answers) outcome",
         assumptions: &["E1: sequential consistency; E2: loom's C11 model (no SeqCst-fence weakening beyond what loom implements), Block::new built field by field instead of zeroed (loom atomics cannot be zero-initialised)", "scheduling points = every facade atomic / epoch-pointer operation + the slot write; other code between two points runs atomically", "BLOCK_SIZE = 64"],
         parts,
         run,
